@@ -536,13 +536,13 @@ theorem C04_model_meets_spec (c : Case) (hwf : wf c = true) (hk : known c = []) 
 /-- **C04_source_hash_block**: the body of `wrap`, translated from the current source (`Gen.attrs_wrap`, regenerated
     on every run), performs exactly the builder calls of the declarative table `Src.wrapModel` — whose hash part is
     `codeOutcome` / `defErr`, the functions `C04_table` and `C04_cache_errors` are about — for every combination of
-    `hash`/`unsafe_hash` ∈ {None, True, False}, effective `eq` ∈ {None, True, False}, auto_detect, own `__eq__`, own
-    `__hash__`, frozen, frozen base, exception base (under auto_exc) and cache_hash (2 048 rows, kernel-evaluated;
+    `hash`/`unsafe_hash` ∈ {None, True, False}, effective `eq` ∈ {None, True, False}, auto_detect, own
+    `__hash__`, frozen, frozen base, exception base (under auto_exc) and cache_hash (1 024 rows, kernel-evaluated;
     the remaining inputs at the values of `Src.base`): `add_hash` / `make_unhashable` / neither, and the TypeError
     for cache_hash without a generated hash, in exactly the documented rows. -/
-theorem C04_source_hash_block : ∀ (hs hv es ev ad oe oh fz fb eb ch : Bool),
-    Src.srcWrap (Src.sliceHash hs hv es ev ad oe oh fz fb eb ch) =
-      Src.wrapModel (Src.sliceHash hs hv es ev ad oe oh fz fb eb ch) :=
+theorem C04_source_hash_block : ∀ (hs hv es ev ad oh fz fb eb ch : Bool),
+    Src.srcWrap (Src.sliceHash hs hv es ev ad oh fz fb eb ch) =
+      Src.wrapModel (Src.sliceHash hs hv es ev ad oh fz fb eb ch) :=
   Src.wrap_slice_hash
 
 end Attrs.C04
